@@ -268,13 +268,16 @@ def _cancel_factors(
     plan: RoughPlan = []
 
     for dimension in list(factors):
-        exponent = -1 if any(e < 0 for e in dimension.exponents) else 1
         inverse = dimension**-1
         while dimension in factors and inverse in factors:
             end_factor = _clean_pop(factors, dimension)
             if dimension is inverse:
                 continue
             start_factor = _clean_pop(factors, inverse)
+
+            # factors with negative exponents are filed under the inverse of their
+            # own dimension (see _splat)
+            exponent = 1 if end_factor.dimension is dimension else -1
 
             if invert:
                 plan.append((1, start_factor, end_factor, -exponent))
